@@ -23,6 +23,7 @@ DOC = {
  "C11.R5": "no supervision-port send while a DashMap entry/ref guard is held; no guard across a yield; lock-order acyclic (shared with C06.R7)",
  "C11.R7": "every removal of a group entry from the forward map is an OccupiedEntry::remove dominated by the true edges of members.is_empty() and listeners.is_empty() of that body; scope-monitor entries likewise by their vector's is_empty()",
  "C11.R8": "the reverse index shrinks only in remove_empty_actor_relations (empty under the lock + same Arc); that helper is called only on the exit path or on a status edge that excludes Unstarted..Draining",
+ "C11.R9": "get_scoped_members / get_scoped_local_members look up exactly (scope param, group param), answer with members.values() of that entry cloned (local variant: filtered by is_local() only), empty otherwise; the unscoped getters delegate with the default scope",
  "C11.R6": "which_groups / which_scopes / which_scopes_and_groups filter on non-empty members; which_scoped_groups reads the index",
 }
 
@@ -332,6 +333,66 @@ def r8(run, db):
                   "%s drops reverse-index records of actors that may still be live" % f.id, c.where())
 
 
+def r9(run, db):
+    """membership getters agree with the membership set: they read the members map of exactly the (scope, group) asked
+    for and return all of it (the local variants: all of it that is local) -- no other filter, cap or source"""
+    gs, rel = pg_fields(db)
+    OWN = lambda cc: 0 if cc.matches(r"ToOwned>::to_owned$|ToOwned::to_owned$|Clone>::clone$|Clone::clone$|Deref>::deref$") else None
+    for nm, local in (("get_scoped_members", False), ("get_scoped_local_members", True)):
+        f = pg_fn(db, nm)
+        run.saw(len(f.blocks), f)
+        gets = [c for c in f.calls() if c.matches(r"DashMap::<K, V, S>::get$")]
+        run.check(len(gets) == 1, nm + "|one-lookup", "one lookup in the forward map", "%d lookups" % len(gets), f.where())
+        if not gets:
+            continue
+        g = gets[0]
+        # the key: ScopeGroupKey{scope: param1, group: param2}
+        okk = False
+        for r in f.origins(g.args[1]):
+            if r["k"] == "agg" and (r["stmt"]["rv"].get("adt") or "").endswith("ScopeGroupKey"):
+                vals = dict(zip(r["stmt"]["rv"]["fields"], r["stmt"]["rv"]["ops"]))
+                a = [x for x in f.origins(vals.get("scope"), through=OWN)] if "scope" in vals else []
+                b = [x for x in f.origins(vals.get("group"), through=OWN)] if "group" in vals else []
+                okk = bool(a) and bool(b) and all(x["k"] == "arg" and x["local"] == 1 for x in a) and all(x["k"] == "arg" and x["local"] == 2 for x in b)
+        run.check(okk, nm + "|key-from-params", "the key looked up is (scope parameter, group parameter)", "the key looked up is not built from the function's scope and group parameters", g.where())
+        # the result on the Some edge: collect(cloned([filter(is_local)](members.values())))
+        chain = []
+        roots = f.origins([0, []], through=lambda cc: (chain.append(cc.name.split("::")[-1]) or 0) if cc.matches(r"Iterator::(collect|cloned|copied|filter|map)$") else None)
+        srcs = [r for r in roots if r["k"] == "call" and r["call"].matches(r"HashMap::<K, V, S, A>::values$")]
+        others = [r for r in roots if not (r["k"] == "call" and (r["call"].matches(r"HashMap::<K, V, S, A>::values$") or r["call"].matches(r"Vec::<T>::new$|vec::from_elem$")))]
+        oks = len(srcs) == 1 and gs["members"] in field_names(f, srcs[0]["call"].args[0]) and not others
+        run.check(oks, nm + "|source=members.values", "the answer is built from members.values() of the entry found (or is empty when there is no entry)",
+                  "the answer has another source: %s" % [r["call"].name if r["k"] == "call" else r["k"] for r in others], f.where())
+        # the values() receiver comes from the looked-up entry
+        if srcs:
+            via = f.origins(srcs[0]["call"].args[0], through=lambda cc: 0 if cc.matches(r"Ref::<'a, K, V>::value$|Deref>::deref$") else None)
+            run.check(any(r["k"] == "call" and r["call"].bb == g.bb for r in via), nm + "|of-that-entry", "members of the entry that was looked up", "members of another entry", f.where())
+        flt = [c for c in f.calls() if c.matches(r"Iterator::(filter|filter_map|take|skip|take_while|skip_while|step_by)$")]
+        if not local:
+            run.check(not flt, nm + "|unfiltered", "no member is filtered out", "get_scoped_members filters its answer (%s)" % [c.name.split("::")[-1] for c in flt], f.where())
+        else:
+            okf = len(flt) == 1 and flt[0].matches(r"Iterator::filter$")
+            pred = None
+            if okf:
+                for r in f.origins(flt[0].args[1]):
+                    if r["k"] == "agg":
+                        pred = db.fns.get(r["stmt"]["rv"].get("def"))
+            okp = False
+            if pred is not None:
+                cs = pred.calls()
+                il = [c for c in cs if c.matches(r"ActorId::is_local$")]
+                ret = pred.origins([0, []])
+                okp = len(il) == 1 and all(r["k"] == "call" and r["call"].bb == il[0].bb for r in ret) and not pred.switches() and all(c.matches(r"ActorId::is_local$|ActorCell::get_id$|Deref") for c in cs)
+            run.check(okf and okp, nm + "|filter=is_local", "the only filter is `get_id().is_local()`", "the local-members filter is not exactly is_local()", f.where())
+    for nm, target in (("get_members", "get_scoped_members"), ("get_local_members", "get_scoped_local_members")):
+        f = pg_fn(db, nm)
+        cs = [c for c in f.calls() if c.callee == "ractor::pg::" + target]
+        okd = len(cs) == 1 and all(r["k"] == "call" and r["call"].bb == cs[0].bb for r in f.origins([0, []]))
+        okg = bool(cs) and all(x["k"] == "arg" and x["local"] == 1 for x in f.origins(cs[0].args[1], through=OWN))
+        oksc = bool(cs) and all(x["k"] == "const" for x in f.origins(cs[0].args[0], through=OWN))
+        run.check(okd and okg and oksc, nm + "|delegates", "%s = %s(DEFAULT_SCOPE, group)" % (nm, target), "%s does not simply delegate to %s with the default scope and its group parameter" % (nm, target), f.where())
+
+
 Q = ["dflt"]
 TH = ["dflt", "rc", "atr", "astd"]
-RULES = [{"id": "C11.R%d" % i, "fn": f, "quick": Q, "thorough": TH} for i, f in enumerate([r1, r2, r3, r4, r5, r6, r7, r8], 1)]
+RULES = [{"id": "C11.R%d" % i, "fn": f, "quick": Q, "thorough": TH} for i, f in enumerate([r1, r2, r3, r4, r5, r6, r7, r8, r9], 1)]
